@@ -689,6 +689,47 @@ func checkLocationEvaluator(c *Ctx, gsq, ev *ssa.Function) {
 				if p.t.Op == "const" {
 					continue
 				}
+				if p.t.contains(func(x *Term) bool { return x.Op == "anyof" || x.Op == "partial" }) {
+					// the evaluator called again on a location it has rewritten (two complements in a row cancel
+					// each other): sound when the rewritten operand is all there is. An operand picked by a fixed
+					// position while nothing pins the number of operands drops the others.
+					picked := p.t.contains(func(x *Term) bool {
+						return x.Op == "index" && len(x.Args) == 2 && x.Args[1].Op == "const" && strings.Contains(x.Args[0].String(), "field[SubLocations]")
+					})
+					pinned := false
+					for _, a := range p.cond.atoms() {
+						if !strings.Contains(a.Atom.String(), "call[builtin:len](field[SubLocations]") {
+							continue
+						}
+						// "there is at least one" (len > 0, len >= 1, len != 0) says nothing about the others;
+						// any other question about the number of operands may pin it
+						lower := false
+						if len(a.Atom.Args) == 2 && !a.Disj {
+							lenFirst := strings.HasPrefix(a.Atom.Args[0].String(), "call[builtin:len]")
+							switch {
+							case !a.Neg && lenFirst && (a.Atom.isBin(">") || a.Atom.isBin(">=") || a.Atom.isBin("!=")):
+								lower = true
+							case !a.Neg && !lenFirst && (a.Atom.isBin("<") || a.Atom.isBin("<=") || a.Atom.isBin("!=")):
+								lower = true
+							case a.Neg && a.Atom.isBin("=="):
+								lower = true
+							case a.Neg && lenFirst && (a.Atom.isBin("<") || a.Atom.isBin("<=")):
+								lower = true
+							case a.Neg && !lenFirst && (a.Atom.isBin(">") || a.Atom.isBin(">=")):
+								lower = true
+							}
+						}
+						if !lower {
+							pinned = true
+						}
+					}
+					if picked && !pinned {
+						stt, why = broken, "on the Complement branch one operand, picked by its position, is evaluated again on a rewritten location and returned, and nothing on the way says how many operands there are: the other operands of the join are dropped ("+short(p.t.String())+")"
+					} else {
+						stt, why = unknown, "on the Complement branch the evaluator is called again on a rewritten location; whether that equals the reverse complement is not decided: "+short(p.t.String())
+					}
+					continue
+				}
 				if p.t.contains(func(x *Term) bool {
 				return (x.Op == "call" && (x.Name == "?" || (strings.HasPrefix(x.Name, "poly") && !strings.Contains(x.Name, "getFeatureSequence")))) || x.Op == "global" || x.Op == "closure"
 			}) {
